@@ -224,3 +224,7 @@ func HarnessC19GoIdentQuick() { c19goident(2, 3, commonInitialisms) }
 
 // HarnessC19GoIdentThorough: up to 3 parts, words of 2..4 letters.
 func HarnessC19GoIdentThorough() { c19goident(3, 4, commonInitialisms) }
+
+// HarnessC19GoIdent3Small: three parts over a small initialism list that includes the one with a
+// digit (runs like ACL+UTF8 followed by a word), words of 2..3 letters.
+func HarnessC19GoIdent3Small() { c19goident(3, 3, []string{"ACL", "UTF8", "ID", "URL"}) }
